@@ -136,6 +136,48 @@ theorem link_unlink_keeps_rest {g g' : Graph} (hg : ReachableFresh g) {p : Path}
     ∃ id cg, c.node = some cg ∧ g'.links cg = (contEntries g c).filter (fun l => l.1 != id) :=
   hg.wf.contDel_link hc hfl hres
 
+/-- **a legal name is accepted** (`File.create_block`) — in every reachable graph, a name that is
+non-empty, has no '/', comes with a non-empty type, is not present among the blocks and is not an
+id still to be drawn, is accepted: the call succeeds, keeps the invariant, `blocks` is the old
+list followed by the new block, whose id is the freshly drawn one and differs from every id in
+the file; lookup and membership by that id and membership by entity address exactly the new
+block; and — unless the name is the id of a sibling, the documented clash — so do lookup and
+membership by name, and deleting by name restores the old list. -/
+theorem legal_name_accepted_block {g : Graph} (hg : ReachableFresh g) {name type : String} {c : Cont}
+    (hc : openCont g [] "data" = some c)
+    (hn : name ≠ "") (hs : hasSlash name = false) (ht : type ≠ "")
+    (hfresh : ∀ m, g.nextId ≤ m → name ≠ idStr m)
+    (hnew : ∀ l ∈ contEntries g c, l.1 ≠ name) :
+    ∃ g' k c', createBlock g name type = .ok g' ∧ WF g' ∧ openCont g' [] "data" = some c' ∧
+      contEntries g' c' = contEntries g c ++ [(name, k)] ∧
+      g'.entityId k = some (g.freshId).2 ∧ (∀ k', g.entityId k' ≠ some (g.freshId).2) ∧
+      contGet g' c' (.str (g.freshId).2) = .ok (name, k) ∧
+      contHas g' c' (.str (g.freshId).2) = .ok true ∧
+      contHas g' c' (.ent k) = .ok true ∧
+      ((isUuid name = true → ∀ l ∈ contEntries g c, g.entityId l.2 ≠ some name) →
+         contGet g' c' (.str name) = .ok (name, k) ∧ contHas g' c' (.str name) = .ok true ∧
+         ∃ g'', contDel g' c' (.str name) = .ok g'' ∧ cLinks g'' c'.node = contEntries g c) :=
+  hg.wf.legal_name_accepted_block hc hn hs ht hfresh hnew
+
+/-- the full statement of `legal_name_accepted` for the other create functions (groups, arrays,
+tags, multi-tags, sources, sections, properties): proved so far are acceptance-preserves-`WF`
+(`step_wf`), the shape of the new container (`Lemmas.NewEnt.cont`: old entries ++ [new]) inside
+`WF.createIn` / `WF.createSection_new`, and — for every container of the resulting reachable
+graph — `views_agree_reachable` and `order_after_delete`; what is missing is the packaging of
+these into one statement per function as done for blocks above. -/
+def LegalNameAcceptedEverywhere : Prop :=
+  ∀ (g : Graph), ReachableFresh g → ∀ (p : Path) (what name type cname kind : String) (o : Loc) (c : Cont),
+    resolve g rootLoc p = some o → createSpec (kindOf g o.key) what = some (cname, kind) → kind ≠ "multi_tag" →
+    openCont g p cname = some c → checkNameType name type = .ok () →
+    (∀ m, g.nextId ≤ m → name ≠ idStr m) → (∀ l ∈ contEntries g c, l.1 ≠ name) →
+    ∃ g' k, createIn g p what name type none = .ok g' ∧
+      cLinks g' (g'.child? o.key cname) = contEntries g c ++ [(name, k)]
+
+/-- the partial result available for every create function: the call keeps the invariant, so all
+view theorems apply to the state after it -/
+theorem legal_name_accepted_partial {g : Graph} (hg : ReachableFresh g) (op : Op) (hf : Op.Fresh g op) :
+    ReachableFresh (step g op) ∧ WF (step g op) := ⟨hg.step hf, (hg.step hf).wf⟩
+
 /-! ### duplicate names are refused by every create function -/
 
 /-- `File.create_section` -/
@@ -216,6 +258,8 @@ theorem demo_reachable : ReachableFresh demo :=
      fun n hn m _ => by cases hn; exact notId_of_head (by decide) m, trivial⟩, rfl⟩
 
 example : WF demo := reachable_wf demo_reachable
+example : ∃ c, openCont demo [] "data" = some c ∧ hasSlash "new" = false ∧
+    (∀ l ∈ contEntries demo c, l.1 ≠ "new") := by decide +kernel
 example : ∃ c, openCont demo [] "data" = some c ∧ isPlainLike c.info.flavour = true ∧ contLen demo c = 2 ∧
     c.info.flavour = .plain := by decide +kernel
 
